@@ -37,7 +37,7 @@ Inductive update_result (sn : eds_snapshot) (e : eds) (current uptodate : ers) (
          let previous := match es_canary st3 with Some cs => cs_nodes cs | None => [] end in
          ((nb = zlen previous /\ st' = st3) \/
           (nb <> zlen previous /\
-           exists sel enough, select_nodes (r_tmpl uptodate) (ca_antiaffinity c) nb (canary_candidate_nodes sn c)
+           exists sel enough, select_or_fail sn (r_tmpl uptodate) (ca_antiaffinity c) nb (canary_candidate_nodes sn c)
                                     (eds_pods sn e) previous = (sel, enough) /\ st' = with_canary_nodes st3 sel))) ->
     (active = false ->
        st' = st3 /\ ann' = fst (clear_canary_annots (e_annots e)) /\ ws = (failed || snd (clear_canary_annots (e_annots e)))) ->
@@ -65,7 +65,7 @@ Proof.
         eapply UR_canary with (c := c); try eassumption; rewrite Epr; cbn [fst snd]; rewrite Eact.
         -- intros _. repeat split; auto. exists rep, nb. repeat split; auto. left. apply Z.eqb_eq in Eq. auto.
         -- discriminate.
-      * destruct (select_nodes _ _ _ _ _ _) as [sel enough] eqn:Es.
+      * destruct (select_or_fail _ _ _ _ _ _ _) as [sel enough] eqn:Es.
         assert (Hres : update_result sn e current uptodate sc sr sa
                          (with_canary_nodes (manage_status (with_eds_conds (base_status e current sc sr sa)
                             (canary_conditions (es_conds (base_status e current sc sr sa)) (es_now sn)
